@@ -29,12 +29,12 @@ def load_harnesses(pid):
 
 def run_one(hs, item):
     from symx.concrete import ConCtx, AssumeFailed
-    from symx.api import norm, exc_label
+    from symx.api import norm, exc_label, run_harness
     h = hs[item['harness']]
     ctx = ConCtx(item['cfg'], item['inputs'])
     res = {'outcome': None, 'failures': [], 'obs': [], 'exc': None, 'missing': []}
     try:
-        h.fn(ctx)
+        run_harness(h, ctx)
         res['outcome'] = ctx._outcome or 'return'
     except AssumeFailed:
         res['outcome'] = 'assume-failed'
@@ -54,7 +54,13 @@ def main(argv):
         with open(argv[1]) as f:
             job = json.load(f)
         hs, _ = load_harnesses(job['property'])
-        out = [run_one(hs, it) for it in job['items']]
+        from symx import libstate
+        libstate.preload()
+        libstate.snapshot()
+        out = []
+        for it in job['items']:
+            libstate.restore()               # every item starts from the library's import-time process state
+            out.append(run_one(hs, it))
         json.dump(out, sys.stdout)
         return 0
     raise SystemExit('usage: python -m symx.replay --batch FILE')
